@@ -8,9 +8,13 @@ event loop with virtual time (no wall clock anywhere).
 Streams
   direct            arbitrary forests of contexts driven against the real holder/manager by real asyncio tasks in a
                     generated interleaving (one event per virtual-time slot, clock values with ties)
+  direct_exhaustive all interleavings (thorough) / samples (quick) of six small concurrent programs
   direct_malformed  wire callbacks outside any request context (LookupError)
   composite         one client: real AsyncExecutor -> Composite -> RequestTiming -> RawRequest/Sleep -> fake endpoint
   clients           2..4 clients in one loop (joint run) + every client alone (solo run): non-interference
+
+History: the oracle classes concurrent-children-exit-order / empty-child-context fired on the tree before fix 65587fe
+(first start / last end won on propagation from nested contexts); corpus/C18 holds the regression cases.
 """
 import asyncio
 import copy
@@ -23,10 +27,10 @@ from fractions import Fraction
 from harness.framework import Stream, HarnessError
 
 PROPERTY = "C18"
-# False = the model of the CURRENT code (runCtx false); True = the model of the proposed patch (runCtx true: min/max,
-# None ignored).  Flip this constant together with the `fix:` commit in /repo; C18_MODEL=patched overrides it for a
-# self-test against a patched scratch tree.
-FX = os.environ.get("C18_MODEL", "patched") == "patched"
+# True = the model of the CURRENT code (runCtx true: update_request_start/_end keep min / max and ignore None, fix 65587fe).
+# C18_MODEL=pinned selects the model of the pre-fix code (runCtx false: first start / last end wins, None propagated); it is
+# only meant for a self-test against a scratch tree with the fix reverted.
+FX = os.environ.get("C18_MODEL", "current") != "pinned"
 RULE = ("trees of nested/concurrent request contexts x dyadic wire times (with ties) x interleavings produced by a random scheduler "
         "(direct: structured 80% / unstructured 20%, 1-3 clients, 'odd' contexts without requests 15%), by complete enumeration of small "
         "concurrent programs (direct_exhaustive) or by real asyncio running the real AsyncExecutor/Composite/RequestTiming (composite, "
@@ -49,6 +53,7 @@ ASSUMPTIONS = [
     "awaits its sub-streams; its exception/cancellation path is out of scope)",
 ]
 
+# regression classes of the defect fixed in 65587fe (witness cases in corpus/C18 are run first on every run)
 CLS_CONC = "concurrent-children-exit-order"
 CLS_EMPTY = "empty-child-context"
 CLS_SEQ = "span-sequential"
